@@ -512,11 +512,15 @@ static void vec_laws(const S* a, const S* b, S k, const V& va, const V& vb, cons
     same &= (a[i] == b[i]);
   }
   VCHECK(same_value<S>(va.dot(vb), dot), cat(tn, "-dot"), "dot is ", va.dot(vb), " expected ", dot);
-  VCHECK(same_value<S>(va.norm1(), n1), cat(tn, "-norm1"), "norm1 is ", va.norm1(), " expected ", n1);
-  VCHECK(same_value<S>(va.norm2(), n2), cat(tn, "-norm2"), "norm2 is ", va.norm2(), " expected ", n2);
+  // norm1() / norm2() / norm() are not among the operations the statement names (in /repo norm1() is the plain sum of the components,
+  // not the sum of their magnitudes; norm() may be sqrt(norm2()) or a hypot that cannot overflow): called, so that the sanitizers see
+  // them, and classified - not judged
   {
+    S g1 = va.norm1(), g2 = va.norm2();
     double nr = va.norm(), er = sqrt(static_cast<double>(n2));
-    VCHECK(same_value<double>(nr, er) || fabs(nr - er) < 1e-12, cat(tn, "-norm"), "norm is ", nr);
+    ctx().cls(same_value<S>(g1, n1) ? "norm1:plain-sum" : "norm1:other-definition");
+    ctx().cls(same_value<S>(g2, n2) ? "norm2:dot(v,v)" : "norm2:other");
+    ctx().cls((same_value<double>(nr, er) || fabs(nr - er) <= 1e-12 * fabs(er)) ? "norm:sqrt(norm2)" : "norm:other");
   }
   VCHECK((!va) == all_zero, cat(tn, "-not"), "operator! is ", !va);
   // == is the componentwise ==: for floating-point components the IEEE one (+0.0 equals -0.0)
